@@ -15,6 +15,9 @@ Interpretation choices of the oracle (all taken from the statement, stated here 
     numbers).  For integer-valued grids the disparity axis must be int(min) .. int(max) by steps of 1/subpix; for
     fractional grids the statement does not say which samples the axis holds, so the oracle is evaluated on the axis the
     real cost volume reports (cv.coords['disp']), only requiring its samples to be increasing multiples of 1/subpix;
+  * "on the selected band for multiband images": the band is selected BY NAME in each image independently (band_im
+    coordinate); the two images may list their bands in a different order and need not hold the same number of bands
+    (clause C02.band.by_name, cases of gen_band_case);
   * cmax: the statement only says it "matches the measure": checked as  max finite cost <= cmax <= trivial bound
     (w^2 * range for sad, w^2 * range^2 for ssd, w^2 for census, == 1 for zncc).
 """
@@ -193,20 +196,58 @@ def build(case):
     else:  # the grids are float32 rasters; the oracle sees exactly the values the real code is given
         gmin, gmax = np.asarray(case["gmin"], dtype=np.float32), np.asarray(case["gmax"], dtype=np.float32)
         disp = (gmin, gmax)
-    left = make_dataset(L, mL, disp, bands)
-    right = make_dataset(R, mR, None, bands)
+    bands_left = case.get("bands_left") or bands  # by-name cases: each image has its own band list
+    bands_right = case.get("bands_right") or bands
+    left = make_dataset(L, mL, disp, bands_left)
+    right = make_dataset(R, mR, None, bands_right)
     mc_cfg = {"matching_cost_method": case["method"], "window_size": int(case["window"]), "subpix": int(case["subpix"])}
     if band is not None:
         mc_cfg["band"] = band
-        idx = list(bands).index(band)
-        Lb, Rb = L[idx], R[idx]
+        Lb, Rb = L[list(bands_left).index(band)], R[list(bands_right).index(band)]  # selected by name in each image
     else:
         Lb, Rb = L, R
     return left, right, mc_cfg, (Lb, Rb, mL, mR, gmin, gmax)
 
 
+def is_by_name(case):
+    """the two images have their own band lists and these differ (order and/or number of bands)"""
+    return case.get("bands_left") is not None and list(case["bands_left"]) != list(case["bands_right"])
+
+
+def aligned_case(case):
+    """the same pair with the right image's bands re-listed like the left image's (planes taken by name, zeros for a band the
+    right image does not have): same selected planes, hence the same expected volume, but no dependence on the band order"""
+    R = np.asarray(case["right"])
+    br = list(case["bands_right"])
+    planes = [R[br.index(nm)] if nm in br else np.zeros(R.shape[-2:], dtype=R.dtype) for nm in case["bands_left"]]
+    out = {k: v for k, v in case.items() if k not in ("bands_left", "bands_right")}
+    out["right"] = np.stack(planes).tolist()
+    out["bands"] = list(case["bands_left"])
+    return out
+
+
 def evaluate(case):
-    """run the real chain and the oracle; return list of (clause, witness_class, message, cell) and n finite oracle cells"""
+    """run the real chain and the oracle; return list of (clause, witness_class, message, cell) and n finite oracle cells.
+    For a pair whose band lists differ, a wrong cost / an exception that disappears when the right bands are re-listed in the
+    left order (aligned_case) is reported under C02.band.by_name; otherwise under the general clause, as for any other pair."""
+    viols, nfinite = _evaluate(case)
+    if not is_by_name(case) or not any(v[0].startswith("C02.cost.") or v[0] == "C02.total" for v in viols):
+        return viols, nfinite
+    general = {v[0] for v in _evaluate(aligned_case(case))[0]}
+    bl, br, band = list(case["bands_left"]), list(case["bands_right"]), case["band"]
+    pos = "band-index-differs" if bl.index(band) != br.index(band) else "band-index-equal"
+    out = []
+    for clause, wclass, msg, cell in viols:
+        if (clause.startswith("C02.cost.") or clause == "C02.total") and clause not in general:
+            wclass = (case["method"] + "-" if clause != "C02.total" else "") + wclass.replace("-band-", "-") + "-" + pos
+            msg += ("  [bands left %s, right %s, selected %r by name: planes %d / %d; the same pair with the right bands listed "
+                    "in the left order agrees with the oracle]" % (bl, br, band, bl.index(band), br.index(band)))
+            clause = "C02.band.by_name"
+        out.append((clause, wclass, msg, cell))
+    return out, nfinite
+
+
+def _evaluate(case):
     left, right, mc_cfg, (Lb, Rb, mL, mR, gmin, gmax) = build(case)
     method, w, subpix = case["method"], int(case["window"]), int(case["subpix"])
     fractional = not (is_integer_grid(gmin) and is_integer_grid(gmax))
@@ -271,7 +312,7 @@ def evaluate(case):
     rng_ = float(max(Lb.max(), Rb.max()) - min(Lb.min(), Rb.min()))
     loose = {"sad": rng_ * w * w, "ssd": rng_ ** 2 * w * w, "census": float(w * w), "zncc": 1.0}[method]
     if cmax is None or not (top - (ZNCC_TOL if method == "zncc" else 0) <= cmax <= loose) or (method == "zncc" and cmax != 1):
-        out.append(("C02.attrs.cmax", "%s-%s" % (method, kind),
+        out.append(("C02.attrs.cmax", "%s-%s" % (method, kind + ("-by-name" if is_by_name(case) else "")),
                     "cmax=%r, max |finite cost|=%r, trivial bound=%r" % (cmax, top, loose), None))
     return out, nfinite
 
@@ -312,6 +353,35 @@ def gen_case(rng, method, w, subpix, bandmode, interval, rnd=99, fkind=0):
         a = rng.integers(-3, 4, size=(ny, nx))
         b = rng.integers(-3, 4, size=(ny, nx))
         case["gmin"], case["gmax"] = np.minimum(a, b).tolist(), np.maximum(a, b).tolist()
+    return case
+
+
+BAND_LISTS = [list(p) for k in (2, 3) for p in itertools.permutations("rgb", k)]  # the 12 lists of 2 or 3 distinct names
+BAND_TRIPLES = [(bl, br, b) for bl in BAND_LISTS for br in BAND_LISTS if bl != br for b in bl if b in br]
+BAND_TRIPLES_MOVED = [t for t in BAND_TRIPLES if t[0].index(t[2]) != t[1].index(t[2])]  # selected band at another position
+BAND_TRIPLES_FIXED = [t for t in BAND_TRIPLES if t[0].index(t[2]) == t[1].index(t[2])]  # same position, lists differ
+BAND_FIRST = [(["r", "g", "b"], ["b", "g", "r"], "r"), (["r", "g"], ["g", "r"], "g"), (["r", "g"], ["b", "g", "r"], "r")]
+
+
+def gen_band_case(rng, method, w, subpix, interval, rnd=99, fkind=0):
+    """multiband pair whose band lists differ (order and/or number of bands), one band common to both selected by name.
+    Geometry, masks, interval/grids and the two selected planes are those of gen_case; the other planes are random."""
+    case = gen_case(rng, method, w, subpix, "mono", interval, rnd, fkind)
+    Lsel, Rsel = np.asarray(case["left"]), np.asarray(case["right"])
+    if rnd < len(BAND_FIRST):
+        bl, br, band = BAND_FIRST[rnd]
+    else:
+        pool = BAND_TRIPLES_MOVED if rng.random() < 0.75 else BAND_TRIPLES_FIXED
+        bl, br, band = pool[int(rng.integers(len(pool)))]
+    small = max(Lsel.max(), Rsel.max()) <= 3
+
+    def stack(sel, names):
+        planes = [sel if nm == band else (rng.choice([0, 1, 3], size=sel.shape) if small else rng.integers(0, 16, size=sel.shape))
+                  for nm in names]
+        return np.stack(planes).tolist()
+
+    case["left"], case["right"] = stack(Lsel, bl), stack(Rsel, br)
+    case["band"], case["bands_left"], case["bands_right"] = band, list(bl), list(br)
     return case
 
 
@@ -361,7 +431,8 @@ def enumerate_domain(tier, seed):
     rng = np.random.default_rng(seed)
     per_combo = PER_COMBO[tier]
     combos = [(m, w, s, b) for (m, w) in METHOD_WINDOWS for s in (1, 2, 4) for b in ("mono", "r", "g")]
-    n_scalar = n_frac = 0
+    rng_b = np.random.default_rng([seed, 0xB02])  # own stream: the cases of the 99 combinations do not depend on the by-name cases
+    n_scalar = n_frac = nb_scalar = nb_frac = 0
     for n in range(per_combo):
         for idx, (m, w, s, b) in enumerate(combos):
             # by turns for every combination: scalar interval (cycling over all 28 of [-3,3]) twice, integer per-pixel grids,
@@ -375,6 +446,19 @@ def enumerate_domain(tier, seed):
             else:
                 yield gen_case(rng, m, w, s, b, INTERVALS[n_scalar % len(INTERVALS)], n)
                 n_scalar += 1
+        # band selected by name, band lists differing between left and right: one case per (measure, window) and round, subpix and
+        # interval kind by turns (period 12: every (subpix, kind) pair), first the three band layouts of BAND_FIRST
+        for idx, (m, w) in enumerate(METHOD_WINDOWS):
+            s = (1, 2, 4)[(idx + n + seed) % 3]
+            turn = (idx + n + seed) % 4
+            if turn == 2:
+                yield gen_band_case(rng_b, m, w, s, None, n)
+            elif turn == 3:
+                yield gen_band_case(rng_b, m, w, s, "frac", n, fkind=nb_frac)
+                nb_frac += 1
+            else:
+                yield gen_band_case(rng_b, m, w, s, INTERVALS[(5 * nb_scalar + 12) % len(INTERVALS)], n)
+                nb_scalar += 1
 
 
 def case_key(case):
@@ -386,14 +470,17 @@ def run(tier, seed):
     rec.functions.update(REAL_FUNCTIONS)
     budget = 72 if tier == "quick" else 1000  # wall seconds, import of pandora included
     t0 = time.time()
-    done = nfrac = 0
+    done = nfrac = nbyname = 0
     for case in enumerate_domain(tier, seed):
         if time.time() - t0 > budget:
             break
         viols, nfinite = evaluate(case)
         done += 1
         nfrac += int(case["gmin"] is not None and not (is_integer_grid(case["gmin"]) and is_integer_grid(case["gmax"])))
+        nbyname += int(is_by_name(case))
         small = {k: case[k] for k in ("method", "window", "subpix", "band", "interval")}
+        if is_by_name(case):
+            small["bands_left"], small["bands_right"] = case["bands_left"], case["bands_right"]
         small["grids"] = None if case["gmin"] is None else ("integer" if is_integer_grid(case["gmin"]) and is_integer_grid(case["gmax"]) else "fractional")
         small["shape"] = list(np.shape(case["left"]))
         small["computable_cells"] = nfinite
@@ -410,14 +497,20 @@ def run(tier, seed):
               "[-4,4] whose values are off the sampling step (1/4; %d kinds by turns: constant [-1.3,1.7]; constant +-[0.x,2.y]; both "
               "bounds n/4 +- {0.05,0.1} per pixel; fractional min with integer max; integer min with fractional max; each bound independently "
               "on a 1/4 step or off-step; column-wise intervals narrower than / about one step); %d cases per (measure,window,subpix,band) "
-              "combination requested, %d cases run of which %d with fractional grids" % (N_FRACTIONAL_KINDS, PER_COMBO[tier], done, nfrac),
+              "combination requested; plus, per round, one by-name pair per (measure,window) [subpix and interval kind by turns]: 2 or 3 bands "
+              "named among r,g,b in each image, the two band lists differing in order and/or number (first r,g,b/b,g,r select r; r,g/g,r "
+              "select g; r,g/b,g,r select r; then drawn among the %d (left list, right list, common band) triples, 3 out of 4 with the selected "
+              "band at different positions), the band selected by name; %d cases run of which %d with fractional grids and %d by-name pairs"
+              % (N_FRACTIONAL_KINDS, PER_COMBO[tier], len(BAND_TRIPLES), done, nfrac, nbyname),
         rule="cases are drawn with np.random.default_rng(seed), round-robin over the 99 (measure,window,subpix,band) combinations, each "
              "combination taking by turns scalar, scalar, integer grids, fractional grids; every cell (row,col,disparity plane) of the real "
              "cost volume is compared with the naive oracle: exactly for sad/ssd/census (integer radiometry, costs are multiples of 1/16), "
              "|diff|<=1e-4 for zncc; NaN pattern compared exactly (a sample d is outside a pixel's interval iff d < min(r,c) or d > max(r,c), "
              "real-number comparison with the float32 grid values).  Disparity axis: must be int(min)..int(max) by 1/subpix for scalar "
              "intervals and integer grids; for fractional grids the oracle is evaluated on the axis the real volume reports (only required "
-             "to be increasing multiples of 1/subpix).  distinct = distinct full input (images, masks, interval/grids, configuration); "
+             "to be increasing multiples of 1/subpix).  By-name pairs (own stream default_rng([seed, 0xB02]), 11 at the end of every round): "
+             "the oracle takes the plane named `band` in each image independently; a wrong cost / exception there that does not occur when "
+             "the right image's bands are re-listed in the left order is reported as C02.band.by_name, otherwise under the general clause.  distinct = distinct full input (images, masks, interval/grids, configuration); "
              "non-trivial = the oracle has at least one computable (finite) cell")
 
 
